@@ -30,7 +30,9 @@ type obs struct {
 	M       flat           // abstracted result (map-shaped results)
 	N       int64          // abstracted result (scalar results)
 	Canon   string         // complete rendering of the result ("" when rejected: error texts may legitimately vary)
-	Err     string         // error text (diagnostics only)
+	Err     string         // error text
+	ErrKey  string         // what of a rejection must not vary: the ConstraintError path and the words of the message
+	ErrPath int            // length of the ConstraintError path (-1: not a ConstraintError)
 	ArgSame bool           // deep snapshot of the argument before == after
 	ArgDiff string         // before / after renderings when they differ
 	Panic   *sup.PanicInfo // the SDK panicked
@@ -43,7 +45,7 @@ func (o obs) key() string {
 		return "panic:" + o.Panic.Frame
 	}
 	if !o.Ok {
-		return "reject"
+		return "reject:" + o.ErrKey
 	}
 	return "ok:" + o.Canon
 }
@@ -173,6 +175,7 @@ var ckinds = map[string]kindInfo{
 	"objdep":        {"objdep", []string{"fresh", "rebuilt"}},
 	"objnest":       {"objnest", []string{"fresh", "rebuilt"}},
 	"chain":         {"chain", []string{"fresh", "rebuilt"}},
+	"disabled":      {"disabled", []string{"fresh", "rebuilt"}},
 	"compat2":       {"compat2", []string{"fresh", "rebuilt"}},
 	"mapcoll":       {"mapcoll", []string{"fresh", "rebuilt"}},
 	"anycoll":       {"mapcoll", []string{"fresh", "rebuilt"}},
@@ -248,6 +251,15 @@ func buildScope(ckind string) (*schema.ScopeSchema, error) {
 			"s": prop(schema.NewRefSchema("inner", nil), schema.PointerTo(`{"a":5}`)),
 		})
 		return schema.NewScopeSchema(root, inner), nil
+	case "disabled":
+		// root{settings: ref S}, S{legacy: disabled WITHOUT a reason (Disable() always gives one: the fields are
+		// set directly, as a description with disabled: true and no disabled_reason does), keep}
+		legacy := prop(intT(), nil)
+		legacy.Disabled = true
+		sObj := schema.NewObjectSchema("S", map[string]*schema.PropertySchema{"legacy": legacy, "keep": prop(intT(), nil)})
+		return schema.NewScopeSchema(
+			schema.NewObjectSchema("root", map[string]*schema.PropertySchema{"settings": prop(schema.NewRefSchema("S", nil), nil)}),
+			sObj), nil
 	case "chain":
 		// four single-property objects linked by references; the last one holds an integer
 		const depth = 4
@@ -309,10 +321,15 @@ func buildScope(ckind string) (*schema.ScopeSchema, error) {
 		return wrap(schema.NewIntEnumSchema(map[int64]*schema.DisplayValue{1: disp("A"), 2: disp("B")}, nil)), nil
 	}
 	if u, isF := unitsFor(ckind); u != nil {
+		// property "v": the schema itself; property "l": a list of it (the same unit definition)
+		var t schema.Type = schema.NewIntSchema(nil, nil, u)
 		if isF {
-			return wrap(schema.NewFloatSchema(nil, nil, u)), nil
+			t = schema.NewFloatSchema(nil, nil, u)
 		}
-		return wrap(schema.NewIntSchema(nil, nil, u)), nil
+		return schema.NewScopeSchema(schema.NewObjectSchema("root", map[string]*schema.PropertySchema{
+			"v": prop(t, nil),
+			"l": prop(schema.NewListSchema(t, nil, nil), nil),
+		})), nil
 	}
 	return nil, fmt.Errorf("unknown concrete kind %q", ckind)
 }
@@ -399,7 +416,7 @@ func build(ckind, origin string) (*instance, error) {
 	}
 	in.scope = s
 	switch info.kind {
-	case "objmap", "objstruct", "objdep", "objnest", "chain", "compat2", "meta":
+	case "objmap", "objstruct", "objdep", "objnest", "chain", "compat2", "disabled", "meta":
 		in.target = s
 	default:
 		in.target = targetOf(s)
